@@ -457,11 +457,6 @@ impl Property for C11 {
     fn supervisor_phase(&self, ctx: &mut Ctx, env: &Env) {
         // the same nested payloads through a small *unoptimised* binary (what `cargo run` / `cargo test`
         // users execute) that decodes each on a 2 MiB thread: an overflow there aborts the process
-        let probe = env.target_dir.join("stackprobe").join("debug").join("tx3-stackprobe");
-        if !probe.exists() {
-            ctx.inconclusive("stack-probe:binary-missing");
-            return;
-        }
         let mut inputs: Vec<(String, Vec<u8>)> = vec![];
         for wi in 0..DEEP_WRAPPERS {
             for d in DEEP_DEPTHS {
@@ -475,66 +470,32 @@ impl Property for C11 {
             inputs.push((format!("raw-indefinite-array@{n}"), vec![0x9f; n]));
             inputs.push((format!("raw-map@{n}"), [0xa1u8, 0x00].repeat(n)));
         }
-        let dir = env.target_dir.join("runs").join(format!("C11-stackprobe-{}", std::process::id()));
-        let _ = std::fs::create_dir_all(&dir);
-        let mut pending: Vec<usize> = (0..inputs.len()).collect();
-        let mut rounds = 0;
-        while !pending.is_empty() && rounds < 40 {
-            rounds += 1;
-            let file = dir.join(format!("inputs-{rounds}.hex"));
-            let text: String = pending.iter().map(|i| hex::encode(&inputs[*i].1) + "\n").collect();
-            if std::fs::write(&file, text).is_err() {
-                ctx.inconclusive("stack-probe:cannot-write-inputs");
-                break;
-            }
-            let out = std::process::Command::new(&probe).arg(&file).stdin(std::process::Stdio::null()).stderr(std::process::Stdio::null()).output();
-            let Ok(out) = out else {
-                ctx.inconclusive("stack-probe:cannot-run");
-                break;
-            };
-            let stdout = String::from_utf8_lossy(&out.stdout).to_string();
-            let mut started: Option<usize> = None;
-            let mut done = 0usize;
-            for line in stdout.lines() {
-                let mut it = line.split(' ');
-                let (Some(a), Some(b)) = (it.next(), it.next()) else { continue };
-                let Ok(k) = a.parse::<usize>() else { continue };
-                match b {
-                    "START" => started = Some(k),
-                    "OK" | "ERR" | "PANIC" => {
-                        started = None;
-                        done = k + 1;
-                        ctx.eval();
-                        ctx.count(&format!("stack-probe/{}", b.to_lowercase()));
-                        ctx.nontrivial_str(&format!("stack-probe:{}", inputs[pending[k]].0));
-                        if b == "PANIC" {
-                            ctx.violation("decode-panic:dev-profile:2MiB-thread", json!({"payload": inputs[pending[k]].0}));
+        match stack_probe(env, "C11", false, &inputs) {
+            None => ctx.inconclusive("stack-probe:unusable"),
+            Some(results) => {
+                for (name, o) in results {
+                    ctx.eval();
+                    ctx.nontrivial_str(&format!("stack-probe:{name}"));
+                    let depth: usize = name.split('@').nth(1).and_then(|d| d.parse().ok()).unwrap_or(0);
+                    let len = inputs.iter().find(|(n, _)| *n == name).map(|(_, b)| b.len()).unwrap_or(0);
+                    match o {
+                        ProbeOutcome::Ok => ctx.count("stack-probe/ok"),
+                        ProbeOutcome::Err => ctx.count("stack-probe/err"),
+                        ProbeOutcome::Panic => {
+                            ctx.count("stack-probe/panic");
+                            ctx.violation("decode-panic:dev-profile:2MiB-thread", json!({"payload": name}));
+                        }
+                        ProbeOutcome::Killed(sig) => {
+                            ctx.count("stack-probe/abort");
+                            ctx.violation(
+                                format!("abort:signal:{sig}:decode:dev-profile:2MiB-thread:depth{}", if depth <= 256 { "<=256" } else { ">256" }),
+                                json!({"payload": name, "depth": depth, "len": len, "what": "tx3_tir::encoding::from_bytes on a 2 MiB thread in an unoptimised build was killed by a signal (stack overflow)"}),
+                            );
                         }
                     }
-                    _ => {}
                 }
             }
-            use std::os::unix::process::ExitStatusExt;
-            if out.status.success() {
-                pending.clear();
-            } else if let (Some(sig), Some(k)) = (out.status.signal(), started) {
-                let (name, _) = &inputs[pending[k]];
-                let family = name.split('@').next().unwrap_or("?").to_string();
-                let depth: usize = name.split('@').nth(1).and_then(|d| d.parse().ok()).unwrap_or(0);
-                ctx.eval();
-                ctx.count("stack-probe/abort");
-                ctx.violation(
-                    format!("abort:signal:{sig}:decode:dev-profile:2MiB-thread:depth{}", if depth <= 256 { "<=256" } else { ">256" }),
-                    json!({"payload": name, "wrapper": family, "depth": depth, "len": inputs[pending[k]].1.len(), "what": "tx3_tir::encoding::from_bytes on a 2 MiB thread in an unoptimised build was killed by a signal (stack overflow)"}),
-                );
-                pending = pending[k + 1..].to_vec();
-            } else {
-                ctx.inconclusive("stack-probe:unexpected-exit");
-                let _ = done;
-                break;
-            }
         }
-        let _ = std::fs::remove_dir_all(&dir);
         if ctx.tier == Tier::Thorough {
             // the same generators and oracles once more under the Miri interpreter (ciborium-ll, serde and
             // hex `unsafe` code reached with truncated / lying / multi-byte inputs; overflow checks on)
